@@ -298,7 +298,7 @@ impl DimacsDoc {
     }
 }
 
-pub const FEATURES: [&str; 22] = [
+pub const FEATURES: [&str; 23] = [
     "last_line_of_any_kind_without_newline",
     "comment_with_non_ascii_bytes",
     "multi_blank_between_tokens",
@@ -308,6 +308,7 @@ pub const FEATURES: [&str; 22] = [
     "blank_line_before_header",
     "blank_line_between_clauses",
     "blank_line_inside_clause",
+    "crlf_blank_line_inside_clause",
     "comment_before_header",
     "comment_between_clauses",
     "comment_inside_clause",
@@ -591,7 +592,12 @@ pub fn render_dimacs(doc: &DimacsDoc, lt: u8, l: &mut Layout) -> Doc {
                     comment_line(b, l);
                 } else {
                     feat(b, "blank_line_inside_clause");
-                    b.raw(b"\n");
+                    if l.on() {
+                        feat(b, "crlf_blank_line_inside_clause");
+                        b.raw(b"\r\n");
+                    } else {
+                        b.raw(b"\n");
+                    }
                 }
             }
             if l.on() {
